@@ -64,6 +64,7 @@ func eval(t *testing.T) func(in []*big.Int) ([]*big.Int, []*big.Int) {
 
 type profile struct {
 	faults, remote, balance, cancel int // weights (per 100)
+	dual                            bool
 }
 
 func profileFor(prop string) profile {
@@ -73,7 +74,7 @@ func profileFor(prop string) profile {
 	case "C07":
 		return profile{faults: 35, remote: 6, balance: 14, cancel: 8}
 	default: // C01
-		return profile{faults: 20, remote: 10, balance: 8, cancel: 8}
+		return profile{faults: 20, remote: 10, balance: 8, cancel: 8, dual: true}
 	}
 }
 
@@ -99,6 +100,9 @@ func genCase(r *hx.Rand, p profile) []*big.Int {
 		c.On4, c.On6 = false, true
 	default:
 		c.On4, c.On6 = true, false
+	}
+	if p.dual && r.Chance(1, 3) {
+		c.On4, c.On6 = true, true // more dual-stack pools: waiters that hold one family and wait for the other
 	}
 	c.Cap = 1 + r.Intn(5)
 	c.Batch = 1 + r.Intn(3)
